@@ -17,10 +17,11 @@ CRATE = {**{f"C{i:02d}": "sl-oblivious" for i in (1, 2, 3, 4, 5, 6, 14, 19)}, "C
 EXTRA = {"sl-verifiable-enc": ["--lib"], "sl-mpc-mate": ["--features", "simple-relay"]}
 ALSO = {"C01": ["C06"], "C20": ["C13"], "C15": ["C16"], "C16": ["C15"], "C03": ["C04"]}
 # round "h" = HARMLESS rewrites (the property still holds): the demo passes with and without the change and every check must stay quiet
-HARMLESS = R == "h"
+HARMLESS = R in ("h", "i")
 if HARMLESS:
     ALSO = {"C15": ["C16", "C11"], "C20": ["C13"], "C19": ["C04"], "C07": ["C08", "C18"], "C03": ["C04", "C01"], "C05": ["C06", "C01"], "C18": ["C07", "C08"],
-            "C09": ["C10", "C11"], "C12": ["C11"], "C13": ["C20"], "C14": ["C05"], "C17": ["C11"]}
+            "C09": ["C10", "C11"], "C12": ["C11"], "C13": ["C20"], "C14": ["C05"], "C17": ["C11"],
+            "C16": ["C15", "C11"], "C11": ["C09", "C10"], "C06": ["C01", "C18"], "C01": ["C02", "C18"], "C02": ["C01"], "C04": ["C03", "C18"], "C08": ["C07", "C18"], "C10": ["C09", "C11"]}
 
 
 def sh(cmd, cwd=None, env=None, timeout=3600):
